@@ -57,6 +57,8 @@ class VClock:
         self.cur = None             # behaviour of the current step
         self.k = 0                  # readings made in the current step
         self.ks = 0
+        self.guest = False          # True while ANOTHER RealtimeEnvironment of this process is at work: the wall clock moves on, nothing is recorded
+        self.guest_calls = 0
 
     def begin_step(self, idx):
         self.cur = self.steps[idx] if idx < len(self.steps) else {}
@@ -84,6 +86,11 @@ class VClock:
             self.t = max(self.t, math.nextafter(self.due(), -math.inf))
 
     def monotonic(self):
+        if self.guest:
+            self.guest_calls += 1
+            if self.guest_calls > CLOCK_BUDGET:
+                raise ClockBudget()
+            return self.t
         self.calls += 1
         if self.calls > CLOCK_BUDGET:
             raise ClockBudget()
@@ -103,6 +110,13 @@ class VClock:
         return self.t
 
     def sleep(self, d):
+        if self.guest:
+            self.guest_calls += 1
+            if self.guest_calls > CLOCK_BUDGET:
+                raise ClockBudget()
+            if d > 0:
+                self.t = self.t + d
+            return
         self.calls += 1
         if self.calls > CLOCK_BUDGET:
             raise ClockBudget()
@@ -123,6 +137,59 @@ class VClock:
         if self.t < before:
             self.t = before
         self.sleeps.append((d, self.t))
+
+
+ASSUMPTIONS.append('rival environments: in about 40% of the cases a second RealtimeEnvironment (another factor, mostly the other strict setting, another initial_time, '
+                   'a small program of its own) is constructed in the same process under the same patched clock - before the environment under test '
+                   '(and stepped a few times first) or after it - and is stepped / re-synchronised between the operations of the environment under test; '
+                   'the wall time it sleeps away is wall time that passes (an input of the model like any other lag); its own pacing is not judged')
+
+
+class Rival:
+    """a second RealtimeEnvironment of the same process: "real_start" (re-based by sync()), factor, strict and initial_time
+    in the property are those of ONE environment - the one whose step() is being paced"""
+
+    def __init__(self, clk, spec):
+        self.clk, self.spec, self.env, self.k = clk, spec, None, 0
+
+    def _guest(self, fn):
+        self.clk.guest = True
+        try:
+            fn()
+        except (EmptySchedule, RuntimeError, ClockBudget):
+            self.env = None if self.clk.guest_calls > CLOCK_BUDGET else self.env
+                                     # nothing left to do / its own "too slow" (/ its own sleep loop does not end): not the business
+                                     # of the environment under test
+        finally:
+            self.clk.guest = False
+
+    def build(self):
+        sp = self.spec
+        def mk():
+            self.env = RealtimeEnvironment(initial_time=sp['initial'], factor=sp['factor'], strict=sp['strict'])
+            def prog(env):
+                for d in sp['delays']:
+                    yield env.timeout(d)
+            self.env.process(prog(self.env))
+        self._guest(mk)
+
+    def act(self):
+        if self.env is None:
+            return
+        a = self.spec['acts'][self.k % len(self.spec['acts'])]
+        self.k += 1
+        self._guest(self.env.sync if a == 'y' else self.env.step)
+
+
+def gen_rival(rng, factor, strict):
+    rf = rng.choice([factor * 2, factor / 2, factor * 0.25, factor * 8, 1, 0.001])
+    if rf == factor:
+        rf = factor * 4
+    # its steps sleep away at most a fraction of one time step of the environment under test
+    return {'when': rng.choice(['before', 'before', 'after']), 'factor': rf, 'strict': (not strict) if rng.random() < 0.7 else strict,
+            'initial': rng.choice(INITIALS + [10, 100.5]), 'delays': [rng.choice([0, 0.0625, 0.125, 0.25]) * factor / rf for _ in range(rng.randint(2, 12))],
+            'pre': rng.choice([0, 1, 2, 3]), 'acts': [rng.choice(['s', 's', 's', 'y']) for _ in range(rng.randint(1, 5))],
+            'at': sorted(rng.sample(range(0, 30), rng.randint(1, 8)))}
 
 
 class EnvRunner(kscript.Runner):
@@ -207,10 +274,13 @@ def gen_case(rng, cid):
     if rng.random() < 0.3:
         ops.insert(0, 'y')
     start = rng.choice([0, 100, 1000.5, 12345.678, rng.uniform(0, 1e5)])
-    return {'cid': str(cid), 'kernel': kc.to_json(), 'initial': initial, 'factor': factor, 'strict': strict,
-            'ops': ops, 'sync_after_slow': rng.random() < 0.5,
-            'clock': {'start': start, 'create_burn': rng.choice([0, 0, 0.5, 3]) * factor, 'steps': steps,
-                      'sync': [rng.choice([0, 0.125, 1, 2.5]) * factor for _ in range(8)]}}
+    c = {'cid': str(cid), 'kernel': kc.to_json(), 'initial': initial, 'factor': factor, 'strict': strict,
+         'ops': ops, 'sync_after_slow': rng.random() < 0.5,
+         'clock': {'start': start, 'create_burn': rng.choice([0, 0, 0.5, 3]) * factor, 'steps': steps,
+                   'sync': [rng.choice([0, 0.125, 1, 2.5]) * factor for _ in range(8)]}}
+    if rng.random() < 0.4:
+        c['rival'] = gen_rival(rng, factor, strict)
+    return c
 
 
 # ------------------------------------------------------------------------------------------------
@@ -230,9 +300,16 @@ def run_rt(case):
     try:
         clk.begin_other()
         clk.t = clk.t + case['clock']['create_burn']
+        rv = Rival(clk, case['rival']) if case.get('rival') else None
+        if rv and case['rival']['when'] == 'before':
+            rv.build()
+            for _ in range(case['rival']['pre']):
+                rv.act()
         env = RealtimeEnvironment(initial_time=case['initial'], factor=case['factor'], strict=case['strict'])
         clk.env = env
         base = clk.readings[-1] if clk.readings else None       # the property's real_start: the reading taken at creation
+        if rv and case['rival']['when'] == 'after':
+            rv.build()
         r = EnvRunner(kc, env)
         r.start()
         lines = r.lines
@@ -241,7 +318,11 @@ def run_rt(case):
         nstep = 0
         slow_run = 0
         forced = []
+        nop = 0
         while nstep < STEP_CAP:
+            if rv and nop in case['rival']['at']:
+                rv.act()
+            nop += 1
             if forced:
                 op = forced.pop(0)
             else:
@@ -317,6 +398,7 @@ def run_rt(case):
         lines.append('U 0')
         lines.append(f'F @{r.now()}')
         rec['lines'] = lines
+        rec['rival_acts'] = rv.k if rv else 0
         rec['kernel_steps'] = sum(1 for s in rec['steps'] if s['outcome'] in ('processed', 'crash'))
         rec['ended_empty'] = bool(rec['steps']) and rec['steps'][-1]['outcome'] == 'empty'
     finally:
@@ -470,10 +552,13 @@ def gen_until(rng, cid):
             st['sleeps'] = [gen_tok_sleep(rng) for _ in range(rng.randint(1, 4))]
         steps.append(st)
     start = rng.choice([0, 100, 1000.5, 12345.678, rng.uniform(0, 1e5)])
-    return {'cid': str(cid), 'family': 'until', 'kernel': kc.to_json(), 'initial': initial, 'factor': factor, 'strict': strict,
-            'segments': segs, 'workload_end': t_end,
-            'clock': {'start': start, 'create_burn': rng.choice([0, 0, 0.5, 3]) * factor, 'steps': steps,
-                      'sync': [rng.choice([0, 0.125, 1, 2.5]) * factor for _ in range(8)]}}
+    c = {'cid': str(cid), 'family': 'until', 'kernel': kc.to_json(), 'initial': initial, 'factor': factor, 'strict': strict,
+         'segments': segs, 'workload_end': t_end,
+         'clock': {'start': start, 'create_burn': rng.choice([0, 0, 0.5, 3]) * factor, 'steps': steps,
+                   'sync': [rng.choice([0, 0.125, 1, 2.5]) * factor for _ in range(8)]}}
+    if rng.random() < 0.4:
+        c['rival'] = gen_rival(rng, factor, strict)       # acts before every run(until) / sync() segment whose index is in `at`
+    return c
 
 
 def run_until(case):
@@ -487,9 +572,16 @@ def run_until(case):
     try:
         clk.begin_other()
         clk.t = clk.t + case['clock']['create_burn']
+        rv = Rival(clk, case['rival']) if case.get('rival') else None
+        if rv and case['rival']['when'] == 'before':
+            rv.build()
+            for _ in range(case['rival']['pre']):
+                rv.act()
         env = RealtimeEnvironment(initial_time=case['initial'], factor=case['factor'], strict=case['strict'])
         clk.env = env
         base = [clk.readings[-1] if clk.readings else None]     # the property's real_start: the reading taken at creation / by sync()
+        if rv and case['rival']['when'] == 'after':
+            rv.build()
         r = PacedRunner(kc, env, clk, base)
         r.start()
         orig_step = env.step
@@ -527,7 +619,9 @@ def run_until(case):
                 clk.begin_other()
 
         env.step = tapped_step
-        for seg in case['segments']:
+        for nseg, seg in enumerate(case['segments']):
+            if rv and (nseg in case['rival']['at'] or nseg % 2 == 0):
+                rv.act()
             if seg[0] == 'y':
                 n0 = len(clk.readings)
                 env.sync()
@@ -620,6 +714,8 @@ def run_until_family(ctx, cases):
         hist['initial_time!=0'] += int(c['initial'] != 0)
         hist['idle environment'] += int(not c['kernel']['mains'])
         hist['ops:sync'] += sum(1 for s in c['segments'] if s[0] == 'y')
+        if c.get('rival'):
+            hist['rival environment: constructed ' + c['rival']['when']] += 1
         if st['until:beyond-the-last-scheduled-occurrence']:
             nontriv += 1
             if len(samples) < 1 and c['kernel']['mains']:
@@ -775,6 +871,10 @@ def compare_chunk(cases, recs, model, disagreements, oracle_failures, hist, dist
         hist['strict' if c['strict'] else 'non-strict'] += 1
         hist['ops:sync'] += rec['ops'].count('y')
         hist['ops:step'] += rec['ops'].count('s')
+        if c.get('rival'):
+            hist['rival environment: constructed ' + c['rival']['when']] += 1
+            hist['rival environment: other strict setting'] += 1 if c['rival']['strict'] != c['strict'] else 0
+            hist['rival environment: its step()/sync() calls between the operations'] += rec.get('rival_acts', 0)
         hist['initial_time!=0'] += 1 if c['initial'] != 0 else 0
         hist['kernel-crash'] += 1 if rec['crash'] is not None else 0
         for s in rec['steps']:
